@@ -783,3 +783,10 @@ def _callsite(eng, st, args, dty, callee, m):
 @summary(r"^anyhow::.*$|^<anyhow::Error as .*$", "anyhow error construction: opaque")
 def _anyhow(eng, st, args, dty, callee, m):
     return VOpaque("anyhow::Error")
+
+
+def _install_more():
+    import summaries_coll  # noqa: F401  (registers its entries)
+
+
+_install_more()
